@@ -12,8 +12,9 @@ while the first is inside.
 
 Layout of the processes: the check (this module, `correspond`) generates histories and hands them to
 *workers* (`python -m xv.props.c16 worker spec out`: fresh interpreters, one list of histories each, run in
-parallel); a worker plays process 0 itself and starts one *agent* (`python -m xv.props.c16 agent lib`) per
-other process of a history.  Monitors (implementation only) are evaluated by the check on the observations.
+parallel); a worker plays process 0 itself and obtains one *agent* process per other process of a history
+from its *zygote* (`python -m xv.props.c16 zygote lib sock`: imports experimaestro once and forks an agent per
+connection).  Monitors (implementation only) are evaluated by the check on the observations.
 """
 import json
 import os
@@ -302,6 +303,16 @@ def settle(ws, jobs, timeout=20.0):
     return ok
 
 
+def die_with_parent():
+    """the kernel kills this process when its parent goes away (no stray agents / workers)"""
+    try:
+        import ctypes
+
+        ctypes.CDLL("libc.so.6", use_errno=True).prctl(1, int(signal.SIGKILL))  # PR_SET_PDEATHSIG
+    except Exception:
+        pass
+
+
 PROBE = (
     "import fcntl,sys\n"
     "try:\n f=open(sys.argv[1],'a')\nexcept OSError:\n print('free'); sys.exit()\n"
@@ -324,10 +335,8 @@ def probe_lock(ws, name):
 # ------------------------------------------------------------------ agent (a process p >= 1)
 
 
-def agent_main(libdir):
-    """reads JSON commands on stdin, answers JSON events on stdout"""
-    real = Real(libdir)
-    out = sys.stdout
+def agent_loop(real, fin, out):
+    """one agent process: reads JSON commands on `fin`, answers JSON events on `out`"""
 
     def emit(**kw):
         out.write(json.dumps(kw) + "\n")
@@ -335,7 +344,7 @@ def agent_main(libdir):
 
     def lines():
         while True:
-            line = sys.stdin.readline()
+            line = fin.readline()
             if not line:
                 os._exit(0)
             line = line.strip()
@@ -429,34 +438,76 @@ def agent_main(libdir):
     os._exit(0)  # a process whose run is over goes away (and with it the job locks of interrupted starts)
 
 
-class Agent:
-    """handle on an agent subprocess (used by the worker)"""
+def zygote_main(libdir, sockpath):
+    """imports experimaestro once, then forks one agent process per connection on a unix socket (an agent
+    is a process of its own — own pid, own fcntl locks — that starts in a few milliseconds).  The zygote has
+    a single thread, so the fork is safe."""
+    import socket
 
-    def __init__(self, libdir):
-        env = dict(os.environ)
-        self.p = subprocess.Popen([sys.executable, "-m", "xv.props.c16", "agent", str(libdir)], stdin=subprocess.PIPE,
-                                  stdout=subprocess.PIPE, stderr=subprocess.DEVNULL, text=True, bufsize=1, env=env)
+    die_with_parent()
+    real = Real(libdir)
+    assert threading.active_count() == 1
+    signal.signal(signal.SIGCHLD, signal.SIG_IGN)  # agents are reaped by the kernel
+    srv = socket.socket(socket.AF_UNIX, socket.SOCK_STREAM)
+    srv.bind(sockpath)
+    srv.listen(128)
+    sys.stdout.write("ready\n")
+    sys.stdout.flush()
+    while True:
+        conn, _ = srv.accept()
+        pid = os.fork()
+        if pid == 0:
+            try:
+                srv.close()
+                signal.signal(signal.SIGCHLD, signal.SIG_DFL)
+                die_with_parent()
+                agent_loop(real, conn.makefile("r"), conn.makefile("w"))
+            finally:
+                os._exit(0)
+        conn.close()
+
+
+class Agent:
+    """handle on an agent process (used by the worker)"""
+
+    def __init__(self, sockpath):
+        import socket
+
+        self.sock = socket.socket(socket.AF_UNIX, socket.SOCK_STREAM)
+        self.sock.connect(sockpath)
+        self.rf = self.sock.makefile("r")
+        self.wf = self.sock.makefile("w")
         self.q = queue.Queue()
         self.dead = False
-        t = threading.Thread(target=self._reader, daemon=True)
-        t.start()
+        self.pid = None
+        self.has_pid = threading.Event()
+        self.eof = threading.Event()
+        threading.Thread(target=self._reader, daemon=True).start()
 
     def _reader(self):
-        for line in self.p.stdout:
-            line = line.strip()
-            if not line:
-                continue
-            try:
-                self.q.put(json.loads(line))
-            except json.JSONDecodeError:
-                self.q.put({"ev": "garbage", "raw": line[:200]})
+        try:
+            for line in self.rf:
+                line = line.strip()
+                if not line:
+                    continue
+                try:
+                    ev = json.loads(line)
+                except json.JSONDecodeError:
+                    ev = {"ev": "garbage", "raw": line[:200]}
+                if ev.get("ev") == "ready":
+                    self.pid = ev["pid"]
+                    self.has_pid.set()
+                self.q.put(ev)
+        except (OSError, ValueError):
+            pass
+        self.eof.set()
         self.q.put({"ev": "eof"})
 
     def send(self, **cmd):
         try:
-            self.p.stdin.write(json.dumps(cmd) + "\n")
-            self.p.stdin.flush()
-        except (BrokenPipeError, OSError):
+            self.wf.write(json.dumps(cmd) + "\n")
+            self.wf.flush()
+        except (BrokenPipeError, OSError, ValueError):
             pass
 
     def expect(self, names, timeout):
@@ -473,26 +524,38 @@ class Agent:
             if ev["ev"] in names or ev["ev"] == "eof":
                 return ev
 
+    def alive(self):
+        return not self.dead and not self.eof.is_set()
+
+    def _signal(self, sig):
+        if self.has_pid.wait(60) and not self.eof.is_set():
+            try:
+                os.kill(self.pid, sig)
+            except ProcessLookupError:
+                pass
+
     def kill(self, sig=signal.SIGKILL):
-        try:
-            self.p.send_signal(sig)
-        except ProcessLookupError:
-            pass
-        try:
-            self.p.wait(timeout=20)
-        except subprocess.TimeoutExpired:
-            self.p.kill()
-            self.p.wait()
-        self.dead = True
+        """the socket reaches end-of-file when the process is gone (all its descriptors are closed)"""
+        self._signal(sig)
+        if not self.eof.wait(20):
+            self._signal(signal.SIGKILL)
+            self.eof.wait(20)
+        self._close()
 
     def close(self):
         if not self.dead:
             self.send(cmd="quit")
-            try:
-                self.p.wait(timeout=3)
-            except subprocess.TimeoutExpired:
+            if not self.eof.wait(3):
                 self.kill()
-            self.dead = True
+            self._close()
+
+    def _close(self):
+        self.dead = True
+        for f in (self.wf, self.rf, self.sock):
+            try:
+                f.close()
+            except (OSError, ValueError):
+                pass
 
 
 # ------------------------------------------------------------------ worker (process 0 + orchestration)
@@ -507,9 +570,9 @@ class HistoryRunner:
        enter p [kill_enter k] | submit p job kind x dep sync | release p | exit p how [kill_exit k]
        | kill p sig | giveup p | other (a complete run of another experiment name by process 0)"""
 
-    def __init__(self, real, libdir, base, hist):
+    def __init__(self, real, zsock, base, hist):
         self.real = real
-        self.libdir = libdir
+        self.zsock = zsock
         self.hist = hist
         self.ops = hist["ops"]
         self.ws = Path(base) / f"ws{hist['id']}"
@@ -528,7 +591,7 @@ class HistoryRunner:
     # -- helpers
     def agent(self, p):
         if p not in self.agents:
-            self.agents[p] = Agent(self.libdir)
+            self.agents[p] = Agent(self.zsock)
         return self.agents[p]
 
     def prespawn(self):
@@ -782,15 +845,20 @@ class HistoryRunner:
             self.real.release.set()
             for ag in self.agents.values():
                 if not ag.dead:
-                    if ag.p.poll() is None and (ag in self.pending.values() or True):
-                        ag.kill()
+                    ag.kill()
         return {"id": self.hist["id"], "events": self.events, "abort": self.abort, "wall": round(time.time() - t0, 3)}
 
 
 def worker_main(specfile, outfile):
+    die_with_parent()
     spec = json.loads(Path(specfile).read_text())
     os.environ["XPM_WORKDIR"] = str(Path(spec["base"]) / "xpmwork")
+    zsock = str(Path(spec["base"]) / "z.sock")
+    zyg = subprocess.Popen([sys.executable, "-m", "xv.props.c16", "zygote", spec["lib"], zsock], stdout=subprocess.PIPE,
+                           stderr=subprocess.DEVNULL, text=True)
     real = Real(spec["lib"])
+    if zyg.stdout.readline().strip() != "ready":
+        raise RuntimeError("C16 zygote did not start")
     import faulthandler
 
     if os.environ.get("C16_DEBUGSTATE"):  # diagnostic: state of the scheduler of a run that does not end
@@ -812,12 +880,13 @@ def worker_main(specfile, outfile):
             faulthandler.dump_traceback_later(int(os.environ.get("C16_WATCHDOG", "150")), exit=True)
             sys.stderr.write(f"history {hist['id']}\n")
             sys.stderr.flush()
-            res = HistoryRunner(real, spec["lib"], spec["base"], hist).run()
+            res = HistoryRunner(real, zsock, spec["base"], hist).run()
             out.write(json.dumps(res) + "\n")
             out.flush()
             import shutil
 
             shutil.rmtree(Path(spec["base"]) / f"ws{hist['id']}", ignore_errors=True)
+    zyg.kill()
 
 
 # =====================================================================================
@@ -1183,6 +1252,24 @@ def nontrivial(hist, res):
     return len(ends) >= 2 and len(hows) >= 2 and subs >= 2
 
 
+def _collect(ctx, procs, results):
+    for p, out, chunk in procs:
+        try:
+            _, err = p.communicate(timeout=ctx.scale(600, 3000))
+        except subprocess.TimeoutExpired:
+            p.kill()
+            _, err = p.communicate()
+            raise RuntimeError("C16 worker timed out: " + (err or "")[-3000:])
+
+        if out.exists():
+            for line in out.read_text().splitlines():
+                r = json.loads(line)
+                results[r["id"]] = r
+        missing = [h["id"] for h in chunk if h["id"] not in results]
+        if missing:
+            raise RuntimeError(f"C16 worker lost histories {missing[:3]}: rc={p.returncode} {err[-800:]}")
+
+
 def run_histories(ctx, hists, with_model=True, nworkers=None):
     """executes the histories on the real code (parallel workers), evaluates monitors, compares with the model"""
     common = _common()
@@ -1208,20 +1295,12 @@ def run_histories(ctx, hists, with_model=True, nworkers=None):
                              stdout=subprocess.DEVNULL, stderr=subprocess.PIPE, text=True)
         procs.append((p, out, chunk))
     results = {}
-    for p, out, chunk in procs:
-        try:
-            _, err = p.communicate(timeout=ctx.scale(600, 3000))
-        except subprocess.TimeoutExpired:
-            p.kill()
-            _, err = p.communicate()
-            raise RuntimeError("C16 worker timed out: " + (err or "")[-3000:])
-        if out.exists():
-            for line in out.read_text().splitlines():
-                r = json.loads(line)
-                results[r["id"]] = r
-        missing = [h["id"] for h in chunk if h["id"] not in results]
-        if missing:
-            raise RuntimeError(f"C16 worker lost histories {missing[:3]}: rc={p.returncode} {err[-800:]}")
+    try:
+        _collect(ctx, procs, results)
+    finally:
+        for p, _, _ in procs:
+            if p.poll() is None:
+                p.kill()
     all_lines, slices = [], []
     for h in hists:
         res = results[h["id"]]
@@ -1279,7 +1358,7 @@ def correspond(ctx):
         "fcntl/fasteners: mutual exclusion between processes and release on process death (exercised, not proved)",
         "local filesystem semantics of rename/unlink/symlink (atomic per call)",
     ]
-    n = ctx.scale(100, 1800)
+    n = ctx.scale(100, 1200)
     hists = [dict(h) for h in CORPUS] + [gen_history(ctx.rng, f"{ctx.seed}-{i}") for i in range(n)]
     for k in range(0, len(hists), 240):  # fresh workers per batch (a worker leaks a thread and a few fds per run)
         run_histories(ctx, hists[k:k + 240])
@@ -1326,7 +1405,7 @@ def replay(ctx, obj):
 
 
 if __name__ == "__main__":
-    if sys.argv[1] == "agent":
-        agent_main(sys.argv[2])
+    if sys.argv[1] == "zygote":
+        zygote_main(sys.argv[2], sys.argv[3])
     elif sys.argv[1] == "worker":
         worker_main(sys.argv[2], sys.argv[3])
